@@ -10,6 +10,7 @@ impl -> spec: seeded garbage (`doc-cost-garbage`) and, when available, every inp
 """
 import json
 import os
+import time
 
 import common as C
 
@@ -92,10 +93,14 @@ def run(prop, tier):
         C.tlc_must_pass(mc, "MC_Cost")
         out.add_tlc(mc)
         n_members = C.count_lines(replay)
+        C.log("C03: MC_Cost %d members, %d states, %.1fs" % (n_members, mc.distinct, mc.wall))
+        t1 = time.time()
         # 2. families through the workers (one process per member: a crash or a time-out of one
         #    member cannot delay or hide another)
         fam_ev = os.path.join(wd, "families.ev")
         _run_inputs(replay, fam_ev, 1)
+        C.log("C03: families run in %.1fs" % (time.time() - t1))
+        t1 = time.time()
         # 3. garbage
         garbage = os.path.join(wd, "garbage.ndjson")
         n_garbage = GARBAGE[tier]
@@ -103,6 +108,7 @@ def run(prop, tier):
                        "--out", garbage])
         gar_ev = os.path.join(wd, "garbage.ev")
         _run_inputs(garbage, gar_ev, 256)
+        C.log("C03: %d garbage inputs run in %.1fs" % (n_garbage, time.time() - t1))
         # 4. the inputs of the C01/C02 model, if that engine provides them
         mc_ev = None
         import docs
@@ -139,6 +145,7 @@ def run(prop, tier):
                 f.write("\n".join(sl) + "\n")
             res, events = _validate(out, trace, dense, k == 0, "c03tv%d" % k)
             validated += len(events)
+            C.log("C03: Trace_Cost slice %d: %d events in %.1fs" % (k, len(events), res.wall))
             if k == 0:
                 all_events = events
             os.unlink(trace)
